@@ -258,8 +258,12 @@ def circuit_from_stack(
 
     def lookup_object(obj):
         if isinstance(obj, QConstant):
+            if obj not in let_dict:
+                raise JaqalError("Let constant is not defined in this circuit")
             return let_dict[obj]
         if isinstance(obj, QRegister):
+            if obj not in register_dict:
+                raise JaqalError("Register is not defined in this circuit")
             return register_dict[obj]
         if isinstance(obj, QNamedQubit):
             return [
@@ -620,10 +624,13 @@ def validate_int(value):
     """Make sure this value is an int or a Constant that is an int."""
     if isinstance(value, QConstant):
         pre_value = value.value
-        post_value = int(value.value)
     else:
         pre_value = value
-        post_value = int(value)
+    try:
+        post_value = int(pre_value)
+    except (TypeError, ValueError, OverflowError):
+        # Not a number at all, or NaN or an infinity
+        raise JaqalError(f"Invalid int value {value}") from None
     if pre_value != post_value:
         raise JaqalError(f"Invalid int value {value}")
     return value
